@@ -181,11 +181,32 @@ pub struct OpenClose {
     pub pos: u8,
     pub collateral: u128,
     pub leverage: u128,
+    /// A large position opened by somebody else just before (slot, percent of the reserving pool side,
+    /// leverage): skews the open interest and funds the position impact pool with its negative impact.
+    pub skew: Option<(u8, u8, u8)>,
+    /// Size of the fresh position in percent of the reserving pool side (0 = use `collateral` as is).
+    pub size_pct: u8,
 }
 
 fn open_close_case() -> impl Strategy<Value = OpenClose> {
-    (position_heavy(10), 0u8..NUM_POSITIONS as u8, prop_oneof![4 => 10u128.pow(6)..=10u128.pow(10), 1 => 10u128.pow(10)..=10u128.pow(11)], 1u128..=80)
-        .prop_map(|(history, pos, collateral, leverage)| OpenClose { history, pos, collateral, leverage })
+    (
+        position_heavy(10),
+        0u8..NUM_POSITIONS as u8,
+        prop_oneof![4 => 10u128.pow(6)..=10u128.pow(10), 1 => 10u128.pow(10)..=10u128.pow(11)],
+        1u128..=80,
+        prop_oneof![1 => Just(None), 2 => (0u8..NUM_POSITIONS as u8, 1u8..=40, 1u8..=30).prop_map(Some)],
+        prop_oneof![1 => Just(0u8), 2 => 1u8..=30],
+    )
+        .prop_map(|(history, pos, collateral, leverage, skew, size_pct)| OpenClose { history, pos, collateral, leverage, skew, size_pct })
+}
+
+/// Collateral amount such that collateral value x leverage = `pct` percent of the pool side that reserves
+/// for positions of side `is_long`.
+fn collateral_for_share(w: &World, is_long: bool, coll_long: bool, pct: u128, leverage: u128) -> u128 {
+    let p = w.prices;
+    let side_value = if is_long { w.market.primary.long_amount.saturating_mul(p.long.0) } else { w.market.primary.short_amount.saturating_mul(p.short.0) };
+    let price = if coll_long { p.long.0 } else { p.short.0 };
+    (side_value / 100 * pct / leverage.max(1) / price.max(1)).max(1)
 }
 
 fn check_open_close(c: &OpenClose, rec: &mut Rec, kf_open: bool) -> Result<(), String> {
@@ -194,6 +215,21 @@ fn check_open_close(c: &OpenClose, rec: &mut Rec, kf_open: bool) -> Result<(), S
         let _ = w.apply(op);
     }
     let _ = w.apply(&Op::UpdateFees);
+    if let Some((spos, pct, lev)) = c.skew {
+        let sslot = spos as usize % NUM_POSITIONS;
+        let (sl, scl) = position_sides(sslot);
+        let mut coll = collateral_for_share(&w, sl, scl, pct as u128, lev as u128);
+        // construction instead of rejection: shrink until the market accepts it
+        let mut done = false;
+        for _ in 0..6 {
+            if matches!(w.apply(&Op::Increase { pos: sslot as u8, collateral: coll, size_usd: lev as u128 }), Outcome::Increase { .. }) {
+                done = true;
+                break;
+            }
+            coll = coll / 3 + 1;
+        }
+        rec.class_if(done, "skewing_position_opened");
+    }
     // find an empty position slot starting from the requested one
     let Some(slot) = (0..NUM_POSITIONS).map(|k| (c.pos as usize + k) % NUM_POSITIONS).find(|i| w.positions[*i].size_in_usd == 0 && w.positions[*i].collateral_token_amount == 0) else {
         rec.class("no_empty_slot");
@@ -201,16 +237,32 @@ fn check_open_close(c: &OpenClose, rec: &mut Rec, kf_open: bool) -> Result<(), S
     };
     let (is_long, coll_long) = position_sides(slot);
     let p = w.prices;
-    // keep the position within ~10 % of the pool side that has to reserve for it, so that most
-    // opens pass the reserve / open-interest validations (deterministic function of the case)
-    let collateral = {
+    // keep the position within the pool side that has to reserve for it, so that most opens pass the
+    // reserve / open-interest validations (deterministic function of the case)
+    let mut leverage = c.leverage.max(1);
+    let mut collateral = if c.size_pct > 0 {
+        collateral_for_share(&w, is_long, coll_long, c.size_pct as u128, leverage)
+    } else {
         let raw = if coll_long { c.collateral } else { c.collateral / 5 + 1 };
-        let side_value = if is_long { w.market.primary.long_amount.saturating_mul(p.long.0) } else { w.market.primary.short_amount.saturating_mul(p.short.0) };
-        let price = if coll_long { p.long.0 } else { p.short.0 };
-        let cap = side_value / 50 / c.leverage.max(1) / price.max(1);
-        raw.min(cap.max(1))
+        raw.min(collateral_for_share(&w, is_long, coll_long, 2, leverage))
     };
-    let out = w.apply(&Op::Increase { pos: slot as u8, collateral, size_usd: c.leverage });
+    // construction instead of rejection: a refused open (nothing is committed by a refused operation) is
+    // retried with a smaller size or a lower leverage, up to 6 times
+    let mut out = w.apply(&Op::Increase { pos: slot as u8, collateral, size_usd: leverage });
+    for _ in 0..6 {
+        let Outcome::Failed { error, .. } = &out else { break };
+        if error.contains("iquidatable") || error.contains("insufficient collateral") {
+            if leverage > 1 {
+                leverage = leverage / 2;
+            } else {
+                collateral = collateral.saturating_mul(8);
+            }
+        } else {
+            collateral = collateral / 4 + 1;
+        }
+        rec.class("open_retried");
+        out = w.apply(&Op::Increase { pos: slot as u8, collateral, size_usd: leverage });
+    }
     let inc = match out {
         Outcome::Increase { report, .. } => report,
         Outcome::Failed { error, .. } => {
@@ -294,7 +346,7 @@ fn check_open_close(c: &OpenClose, rec: &mut Rec, kf_open: bool) -> Result<(), S
 }
 
 pub fn run_c10(ctx: &mut Ctx) {
-    ctx.rule("cases = market state reached by a generated position-heavy history (other positions open, funded or empty position impact pool, fee/impact/cap settings incl. max positive impact factor above the max negative one), then a fresh position (side, collateral token, size = collateral value x leverage 1..80) opened and fully closed at the same prices with no elapsed time and no swap of the output; oracle = value received (output, secondary output, claimable funding, claimable collateral for user and holding; collateral-token amounts at p_collateral.min, other-token amounts at that token's max price) <= collateral deposited at p_collateral.min + 2 base units per token; non-trivial = non-zero price impact on a leg");
+    ctx.rule("cases = market state reached by a generated position-heavy history (other positions open, funded or empty position impact pool, fee/impact/cap settings incl. max positive impact factor above the max negative one), optionally a large skewing position opened by somebody else (1..40 % of the reserving pool side), then a fresh position (side, collateral token, size = collateral value x leverage 1..80, either a generated amount or 1..30 % of the reserving pool side; a refused open is retried smaller / with lower leverage) opened and fully closed at the same prices with no elapsed time and no swap of the output; oracle = value received (output, secondary output, claimable funding, claimable collateral for user and holding; collateral-token amounts at p_collateral.min, other-token amounts at that token's max price) <= collateral deposited at p_collateral.min + 2 base units per token; non-trivial = non-zero price impact on a leg");
     ctx.assume("decrease swap types other than NoSwap are not used here: a swap of the output inside the close can earn positive swap impact, which is a different mechanism (C05)");
     let kf = ctx.finding_open("KF-C10-1");
     {
@@ -310,7 +362,7 @@ pub fn run_c10(ctx: &mut Ctx) {
             seed_liquidity: (2_320_195_316_925, 483_008_735_800),
             ops: vec![Op::Increase { pos: 3, collateral: 168_130_595, size_usd: 40 }],
         };
-        let w = OpenClose { history: h, pos: 3, collateral: 1_253_819_709, leverage: 37 };
+        let w = OpenClose { history: h, pos: 3, collateral: 1_253_819_709, leverage: 37, skew: None, size_pct: 0 };
         let mut rec = Rec::default();
         let r = check_open_close(&w, &mut rec, false);
         ctx.known_witness("KF-C10-1", r.is_err(), "with a max positive position impact factor above the max negative one (2.4e-10 vs 0, zero order fees), opening a position that rebalances the open interest and closing it at once returns more collateral value (output + claimable collateral) than deposited: the opening leg's positive impact is kept, the closing leg's negative impact is capped and credited back");
